@@ -38,6 +38,7 @@ structure Out where
   cols : List Nat
   warned : Bool
   rest : List (List Nat)
+deriving DecidableEq, Repr
 
 mutual
 /-- one `sample_negatives(rows, verify=True, max_attempts=a)` call in 1-D mode -/
